@@ -149,7 +149,21 @@ func genSchedCmd(t *rapid.T, tag string, first bool, near []string) kit.Cmd {
 		// a pop that waits: it polls (first look after 100 ms), gives the lock up between polls
 		return kit.MkCmd(gen.Pick(t, "bp", "BLPOP", "BRPOP"), lst("bk"), "1")
 	}
-	switch rapid.IntRange(0, 46).Draw(t, "single") {
+	switch rapid.IntRange(0, 49).Draw(t, "single") {
+	case 47, 48:
+		// one command with very many elements (whatever an implementation does per batch of them)
+		args := []string{gen.Pick(t, "bigpush", "RPUSH", "LPUSH"), lst("k")}
+		n := rapid.SampledFrom([]int{65, 70, 130, 300}).Draw(t, "bign")
+		for i := 0; i < n; i++ {
+			args = append(args, fmt.Sprintf("%s.%d", tag, i))
+		}
+		return kit.MkCmd(args...)
+	case 49:
+		args := []string{"SADD", set("k")}
+		for i := 0; i < 70; i++ {
+			args = append(args, fmt.Sprintf("%s.%d", tag, i))
+		}
+		return kit.MkCmd(args...)
 	case 40:
 		return kit.MkCmd("DEL", anyk("k"), anyk("k2"))
 	case 41:
